@@ -192,6 +192,19 @@ def enum_specs(draw, prof=None):
         cuts, gaps = [], []
     lens, gaps = _fit_layout(lo, hi, n, cuts, gaps)
     n = sum(lens)
+    total = hi - lo + 1
+    layout = draw(st.sampled_from(prof.get("layouts", ["free"] * 8 + ["span_pow2", "span_all", "lattice", "pow2"])))
+    if layout == "span_pow2" and len(lens) >= 2:
+        # MAX - MIN exactly on / next to a power of two (bit-set and bitmap style fast paths)
+        target = draw(st.sampled_from([7, 8, 9, 15, 16, 17, 31, 32, 33, 63, 64, 65, 127, 128, 129, 255, 256, 257, 65535, 65536]))
+        need = target - (n - 1) - (len(gaps) - 1)
+        if need >= 1 and target + 1 <= total:
+            gaps = [1] * (len(gaps) - 1) + [need]
+    elif layout == "span_all" and len(lens) >= 2:
+        # sentinel-style enums: the first run at the domain's low end, the last run at its high end
+        rest = total - n - (len(gaps) - 1)
+        if rest >= 1:
+            gaps = [1] * (len(gaps) - 1) + [rest]
     span = n + sum(gaps)
     anchor = draw(st.sampled_from(prof["anchors"]))
     signed = lo < 0
@@ -226,6 +239,23 @@ def enum_specs(draw, prof=None):
         cur += ln
         if i < len(gaps):
             cur += gaps[i]
+    if layout == "span_all" and len(lens) >= 2:
+        shift = lo - values[0]
+        values = [v + shift for v in values]
+    if layout in ("lattice", "pow2") and 2 <= n <= 40:
+        # regularly spaced discriminants (status codes, bit flags): multiples of a step with some missing / powers of two
+        if layout == "lattice":
+            step = draw(st.sampled_from([2, 3, 4, 5, 8, 10, 16, 100, 256, 1000, 4096, 65536]))
+            ks = sorted(draw(st.lists(st.integers(0, 3 * n), min_size=n, max_size=n, unique=True)))
+            base = draw(st.sampled_from([0, 0, 1, -step * (ks[-1] // 2), lo]))
+            cand = [base + step * k for k in ks]
+        else:
+            ks = sorted(draw(st.lists(st.integers(0, 62), min_size=n, max_size=n, unique=True)))
+            cand = [1 << k for k in ks]
+            if draw(st.booleans()):
+                cand = [0] + cand[:-1]
+        if cand[0] >= lo and cand[-1] <= hi and len(set(cand)) == n:
+            values = cand
     assert len(values) == n and values[0] >= lo and values[-1] <= hi, (values[:3], lo, hi)
 
     small = n <= 24
